@@ -479,7 +479,7 @@ impl Group for QueryStr {
         "c02.query"
     }
     fn rule(&self) -> &'static str {
-        "utils::parse::query on EVERY string of up to 5 (quick) / 6 (thorough) tokens over {a, b, =, &, %, 41, é, +} and random longer ones, then every accessor a handler can call on the result (get, get_first, get_last, get_all forwards and backwards, Display) for four names, under catch_unwind; oracle: no panic; for well-formed queries (every pair `name=value` with a non-empty name and one `=`) get_first / get_last / get are the first / last / only value of the name as a plain split gives them; non-trivial = the query has a pair"
+        "utils::parse::query on EVERY string of up to 5 (quick) / 6 (thorough) tokens over {a, b, =, &, %, 41, é, +} and random longer ones, then every accessor a handler can call on the result (get, get_first, get_last, get_all forwards and backwards, Display) for four names, under catch_unwind, and compared with the model (`QuerySplit.query`, `getAll`: the split loop, the sorted insert, the bounds of the iterator); oracle: no panic; for well-formed queries (every pair `name=value` with a non-empty name and one `=`) get_first / get_last / get are the first / last / only value of the name as a plain split gives them; non-trivial = the query has a pair"
     }
     fn generate(&self, ctx: &Ctx, rng: &mut Rng) -> Vec<String> {
         let toks = ["a", "b", "=", "&", "%", "41", "\u{e9}", "+"];
@@ -513,9 +513,6 @@ impl Group for QueryStr {
             v.push(format!("c02.query {}", hex(s.as_bytes())));
         }
         v
-    }
-    fn compare_with_model(&self, _line: &str) -> bool {
-        false
     }
     fn run_impl(&self, _ctx: &Ctx, line: &str) -> String {
         let raw = unhex(line.split(' ').nth(1).unwrap()).unwrap();
